@@ -331,8 +331,13 @@ def _impersonate_payload(tcp: ScapyTCP, signature: TCPSignature) -> ScapyPacket:
     if not signature.payload_class:  # Must remove existing payload
         return NoPayload()
 
-    # Must have payload, generate random or return existing.
-    return payload if payload else Raw(load=random_string(size=random.randint(1, 10)))
+    # Must have payload, generate random or return existing. A layer object that
+    # carries no bytes (e.g. ``Raw(load=b"")``) is truthy but is not a payload.
+    return (
+        payload
+        if len(payload)
+        else Raw(load=random_string(size=random.randint(1, 10)))
+    )
 
 
 def impersonate(
